@@ -408,10 +408,11 @@ NONFINITE = [float('nan'), float('inf'), float('-inf')]
 INTENTS = (['valid'] * 6 + ['empty_name', 'dup_name', 'dup_name', 'dup_values',
                             'dup_values', 'nonfinite', 'nonfinite', 'reversed',
                             'reversed', 'child_double', 'child_double'] +
-           ['odd'] * 2 + ['two'])
+           ['odd'] * 4 + ['two'])
 ODD = ['neg_index', 'nonstring_category', 'empty_values', 'mixed_bounds',
        'bounds_and_values', 'nonfinite_values', 'frac_int_bound',
-       'infeasible_parent', 'empty_name_with_index', 'neither']
+       'infeasible_parent', 'empty_name_with_index', 'neither',
+       'nonfinite_values', 'nonfinite_values']
 
 
 def _split_index(name):
@@ -621,8 +622,12 @@ def builder_case(draw):
         twin = float(v) if isinstance(v, int) else int(v)
       vals.insert(draw(st.integers(0, len(vals))), twin)
     if odd == 'nonfinite_values':
-      vals.insert(draw(st.integers(0, len(vals))),
-                  draw(st.sampled_from(NONFINITE)))
+      # anywhere, also between two finite values (sorted() leaves a NaN where
+      # it stands)
+      while len(vals) < 2:
+        vals.append(max(vals) + 1)
+      vals.insert(draw(st.sampled_from([1, 1, 0, len(vals)] + list(range(
+          len(vals) + 1)))), draw(st.sampled_from(NONFINITE + NONFINITE[:1])))
     if odd == 'empty_values':
       vals, dflt = [], None
     if odd == 'nonstring_category':
